@@ -670,7 +670,7 @@ func (t *transpiler) evaluateInput(input parser.Input, valueUsed bool) (expressi
 	prompt := input.Prompt()
 
 	if prompt != nil {
-		result, err := t.evaluateExpression(prompt, valueUsed)
+		result, err := t.evaluateExpression(prompt, true) // The prompt is always used, even if the input is not.
 
 		if err != nil {
 			return expressionResult{}, err
